@@ -425,7 +425,11 @@ def classify(o, e, sequence):
     le = mp.make_list(list(e) if sequence else sorted(e, key=repr))
     if _anon(lo) == _anon(le) and (_has_inner_list(lo, -1) or _has_inner_list(le, -1)):
         return None
-    if sequence or _has_inner_list(lo, -1) or _has_inner_list(le, -1):
+    inner = _has_inner_list(lo, -1) or _has_inner_list(le, -1)
+    if inner:
+        # sharing between the solutions of an inner list is not judged: compare inner lists anonymised
+        lo, le = _anon(lo), _anon(le)
+    if sequence or inner:
         if _deep(lo) == _deep(le):
             return "order"
         if _deep(lo, True) == _deep(le, True):
@@ -536,12 +540,9 @@ def _term_variants(t):
     t = mp.deref(t)
     if type(t) is mp.Var:
         return
-    if type(t) is int or t == "c":
+    if type(t) is int:
         yield "a"
         yield "b"
-        return
-    if t == "b":
-        yield "a"
         return
     if type(t) is tuple:
         if t[0] == "f" and mp.is_ground(t):
@@ -724,21 +725,21 @@ def shrink_candidates(case):
         else:
             newq = swap(qt)
         yield dict(program=newprog, query=mp.show(newq))
-    # clauses grouped by predicate (stable: the order inside a predicate is what Prolog sees)
-    grouped = sorted(prog, key=lambda c: parse_clause(c)[4])
-    if grouped != prog:
-        yield dict(program=grouped, query=q)
-    # constants renamed in order of first occurrence (a, b, c)
-    ren = _constant_renaming(case)
-    if ren is not None:
-        yield ren
-    # predicates renamed in order of first occurrence (p, q, r, ...), the query first
-    ren = _predicate_renaming(case)
-    if ren is not None:
-        yield ren
+    # merge two constants: every c2 becomes c1
+    present = [c for c in CONSTS if _RE_CONST[c].search(" ".join(prog) + " " + q)]
+    for c1 in present:
+        for c2 in present:
+            if c1 < c2:
+                sub = lambda mo, c1=c1: c1
+                yield dict(program=[_RE_CONST[c2].sub(sub, c) for c in prog], query=_RE_CONST[c2].sub(sub, q))
+    # normal form under renaming of predicates, renaming of the constants a/b/c and grouping of the clauses
+    # by predicate (stable: the order inside a predicate is what Prolog sees): smallest text of the orbit
+    yield dict(canonical_variant(case), normal_form=True)
 
 
 CONSTS = ("a", "b", "c")
+import re as _re
+_RE_CONST = dict((c, _re.compile(r"(?<![A-Za-z0-9_'])%s(?![A-Za-z0-9_'(])" % c)) for c in CONSTS)
 
 
 def _var_bindings(t, keep):
@@ -788,6 +789,44 @@ def _rename_consts(t, m):
 
 
 PRED_NAMES = ("p", "q", "r", "s", "t", "u", "v", "w")
+_RE_TOKEN = None
+_RE_HEAD = None
+
+
+def canonical_variant(case):
+    """The lexicographically smallest text among all consistent renamings of the program's predicate names
+    (to p, q, r, ...; data functors with the same name are renamed along, harmlessly) and of the constants
+    a, b, c, with the clauses stably grouped by predicate name.  Works on the text: every predicate /
+    constant of the grammar is a one-letter token."""
+    import re
+
+    global _RE_TOKEN, _RE_HEAD
+    if _RE_TOKEN is None:
+        _RE_TOKEN = re.compile(r"(?<![A-Za-z0-9_'])[a-z](?![A-Za-z0-9_'])")
+        _RE_HEAD = re.compile(r"^[a-z]")
+    prog = case["program"]
+    preds = sorted(set(parse_clause(c)[4][0] for c in prog))
+    if any(len(n) != 1 for n in preds) or len(preds) > 4 or len(set(preds)) != len(preds):
+        return case
+    text = " ".join(prog) + " " + case["query"]
+    consts = sorted(set(m for m in _RE_TOKEN.findall(text) if m in CONSTS))
+    best = None
+    for pperm in itertools.permutations(PRED_NAMES[:len(preds)]):
+        for cperm in itertools.permutations(CONSTS[:len(consts)]):
+            m = dict(zip(preds, pperm))
+            m.update(zip(consts, cperm))
+            sub = lambda mo: m.get(mo.group(0), mo.group(0))
+            newprog = sorted((_RE_TOKEN.sub(sub, c) for c in prog), key=lambda c: _RE_HEAD.match(c).group(0))
+            cand = dict(program=newprog, query=_RE_TOKEN.sub(sub, case["query"]))
+            key = (" ".join(cand["program"]), cand["query"])
+            if best is None or key < best[0]:
+                best = (key, cand)
+    cand = best[1]
+    try:    # through the reader/writer: canonical spacing and variable names
+        cand = dict(program=[canon_clause(c) for c in cand["program"]], query=mp.show(mp.read_term(cand["query"])))
+    except mp.Unsupported:
+        return case
+    return cand
 
 
 def _predicate_renaming(case):
@@ -873,12 +912,12 @@ def measure(case):
 
     global _RE_VAR
     if _RE_VAR is None:
-        _RE_VAR = (re.compile(r"\b[A-Z_][A-Za-z0-9_]*\b"), re.compile(r"[0-9]"), re.compile(r"\b[bc]\b"))
+        _RE_VAR = (re.compile(r"\b[A-Z_][A-Za-z0-9_]*\b"), re.compile(r"[0-9]"), re.compile(r"(?<![A-Za-z0-9_'])[abc](?![A-Za-z0-9_'(])"))
     text = " ".join(case["program"]) + " ?- " + case["query"]
     dense = text.replace(" ", "")
-    rank = sum(1 if m == "b" else 2 for m in _RE_VAR[2].findall(text))
+    distinct = len(set(_RE_VAR[2].findall(text)))
     return (len(case["program"]), len(dense), len(_RE_VAR[0].findall(text)), len(_RE_VAR[1].findall(text)),
-            rank, text)
+            distinct, text)
 
 
 def minimise(case, symptom):
@@ -896,7 +935,14 @@ def minimise(case, symptom):
         nxt = None
         m0 = measure(case)
         for cand in shrink_candidates(case):
-            if measure(cand) < m0 and symptom_of(cand) == symptom:
+            if cand.get("normal_form"):
+                # renaming / regrouping: same size; it is idempotent and never enlarges the text of a case
+                # that already uses the canonical names, so the shrink still terminates
+                cand = dict(program=cand["program"], query=cand["query"])
+                ok = cand != case and measure(cand)[:5] == m0[:5]
+            else:
+                ok = measure(cand) < m0
+            if ok and symptom_of(cand) == symptom:
                 nxt = cand
                 break
         if nxt is None:
